@@ -31,6 +31,9 @@ type engineOpts struct {
 	MkDirs    []string `json:"mkdirs"` // create directories with these names (directory-instead-of-file)
 	// ChdirBeforeParse changes the working directory (relative to the scratch dir) after the file cache has been built and
 	// loaded and before Parse; with Decoy, the same relative context path below that directory holds a different tree.
+	// Stale: the context directory first holds these contents for the named files; the cache is loaded, the files are
+	// replaced by the case's real contents, and the same cache object is loaded again before Parse.
+	Stale            map[string]string `json:"stale"`
 	ChdirBeforeParse string            `json:"chdir_before_parse"`
 	Decoy            map[string]string `json:"decoy"`
 }
@@ -72,6 +75,9 @@ func init() {
 		for name, content := range c.Files {
 			p := filepath.Join(ctxDir, name)
 			_ = os.MkdirAll(filepath.Dir(p), 0o755)
+			if old, ok := o.Stale[name]; ok {
+				content = old
+			}
 			if err := os.WriteFile(p, []byte(content), 0o644); err != nil {
 				continue
 			}
@@ -114,6 +120,12 @@ func init() {
 			key = "workflow"
 			fc, err = loadfile.NewFileCacheUsingContext(dirArg, map[string]string{"workflow": mainName})
 			if err == nil {
+				err = fc.LoadContext()
+			}
+			if err == nil && len(o.Stale) > 0 {
+				for name := range o.Stale {
+					_ = os.WriteFile(filepath.Join(ctxDir, name), []byte(c.Files[name]), 0o644)
+				}
 				err = fc.LoadContext()
 			}
 			if err != nil {
